@@ -132,7 +132,35 @@ fn main() {
                         let _ = std::fs::write(&marker, tag.to_string());
                         let bytes = malformed(&kind, &mut rng, if stage == 1 { &other_frame } else { &enc_frame });
                         let c2 = &ctx.with_timeout(time::Duration::seconds(20));
-                        // the honest prefix of the path
+                        // RPC-level inputs: a scripted gossip peer with an extreme announcement (the fetcher of the node consults it)
+                        if case["stage"] == "rpc" {
+                            use zksync_consensus_engine::{BlockStoreState, Last};
+                            let fresh_gossip = gv::test_config(rng.gen());
+                            let Ok(d) = gv::dial(c2, addr, &fresh_gossip, genesis, &node_gossip_key).await else {
+                                rep.lock().unwrap().count("honest_prefix_failed");
+                                continue;
+                            };
+                            stage_reached.insert("rpc".into());
+                            let first = setup.first_block();
+                            let big = validator::BlockNumber(u64::MAX);
+                            let qc_max = {
+                                // a certificate-shaped `last` whose header claims the maximal block number (the announcement is not verified)
+                                let mut q: validator::v2::CommitQC = rng.gen();
+                                q.message.proposal.number = big;
+                                q
+                            };
+                            let state = match kind.as_str() {
+                                "announce_last_max_pregenesis" => BlockStoreState { first, last: Some(Last::PreGenesis(big)) },
+                                "announce_last_max_certified" => BlockStoreState { first, last: Some(Last::FinalV2(qc_max)) },
+                                "announce_first_max" => BlockStoreState { first: big, last: Some(Last::PreGenesis(big)) },
+                                "announce_inverted" => BlockStoreState { first: validator::BlockNumber(first.0 + 10), last: Some(Last::PreGenesis(first)) },
+                                "announce_far_future" => BlockStoreState { first: validator::BlockNumber(first.0 + (1 << 40)), last: Some(Last::PreGenesis(validator::BlockNumber(first.0 + (1 << 41)))) },
+                                _ => BlockStoreState { first, last: Some(Last::PreGenesis(validator::BlockNumber(first.0 + 3))) },
+                            };
+                            let sctx = ctx.with_timeout(time::Duration::milliseconds(150));
+                            let none: Arc<dyn Fn(u64) -> Option<validator::Block> + Send + Sync> = Arc::new(|_| None);
+                            let _ = gv::serve_blocks(&sctx, d, state, none, Arc::new(Mutex::new(vec![]))).await;
+                        } else {
                         match stage {
                             1 | 2 => {
                                 if let Ok(mut s) = tokio::net::TcpStream::connect(addr).await {
@@ -189,6 +217,7 @@ fn main() {
                                 }
                                 drop(d);
                             }
+                        }
                         }
                         rep.lock().unwrap().evaluations += 1;
                         // ---- the node must still be up: an honest configured peer is admitted
